@@ -177,7 +177,9 @@ class C14(Check):
                         viol.append({'law': 'L-repeat', 'cls': 'loud' if loud else 'silent', 'key': op['op'],
                                      'detail': f'op #{k}: repeating {op["op"]}({json.dumps(op["kw"])[:160]}) on the same '
                                                f'template gave a different result: {d[:300]}'
-                                               + (f' [{out.get("exc")}: {out.get("msg")}]' if out.get('status') == 'raised' else '')})
+                                               + (f' [now: {out.get("exc")}: {out.get("msg")}]' if out.get('status') == 'raised' else '')
+                                               + (f' [first time: {first[key].get("exc")}: {first[key].get("msg")}]'
+                                                  if first[key].get('status') == 'raised' else '')})
                         break
                 else:
                     first[key] = cmp_
